@@ -4,8 +4,10 @@ import (
 	"bytes"
 	"encoding/json"
 	"fmt"
+	"math/big"
 	"sort"
 	"strings"
+	"unicode/utf8"
 
 	"github.com/ogen-go/ogen/gen"
 
@@ -25,6 +27,13 @@ type cTy struct {
 	nul    bool   // arr: items nullable
 	item   *cTy
 	fields []cField
+	// validation keywords (only generated for the C03 stream): integer bounds and multipleOf, string length in
+	// code points / item count
+	imin, imax   *int64
+	exMin, exMax bool
+	mult         int64
+	lmin         int
+	lmax         *int
 }
 
 type cField struct {
@@ -34,6 +43,47 @@ type cField struct {
 }
 
 var cNames = []string{"a", "b", "c", "id", "n", "tag", "éz", "h i", "x-y", "k_1", "zed", "Q", "日本w", "v2", "d.e", "f\"g"}
+
+// genCTyK: genCTy with validation keywords on the leaves and arrays
+func genCTyK(rng *lp.Rand, depth int, wantObj bool) *cTy {
+	t := genCTy(rng, depth, wantObj)
+	var deco func(t *cTy)
+	deco = func(t *cTy) {
+		switch t.kind {
+		case "int":
+			if rng.Chance(60) {
+				lo := int64(rng.Intn(7)) - 3
+				t.imin = &lo
+				t.exMin = rng.Chance(30)
+			}
+			if rng.Chance(60) {
+				hi := int64(rng.Intn(9)) + 1
+				t.imax = &hi
+				t.exMax = rng.Chance(30)
+			}
+			if rng.Chance(30) {
+				t.mult = int64(2 + rng.Intn(3))
+			}
+		case "str", "arr":
+			if rng.Chance(50) {
+				t.lmin = rng.Intn(3)
+			}
+			if rng.Chance(50) {
+				m := t.lmin + rng.Intn(3)
+				t.lmax = &m
+			}
+			if t.kind == "arr" {
+				deco(t.item)
+			}
+		case "obj":
+			for _, f := range t.fields {
+				deco(f.ty)
+			}
+		}
+	}
+	deco(t)
+	return t
+}
 
 func genCTy(rng *lp.Rand, depth int, wantObj bool) *cTy {
 	k := rng.Intn(6)
@@ -74,12 +124,39 @@ func (t *cTy) schema(nullable bool) map[string]any {
 	switch t.kind {
 	case "int":
 		m = map[string]any{"type": "integer"}
+		if t.imin != nil {
+			m["minimum"] = *t.imin
+			if t.exMin {
+				m["exclusiveMinimum"] = true
+			}
+		}
+		if t.imax != nil {
+			m["maximum"] = *t.imax
+			if t.exMax {
+				m["exclusiveMaximum"] = true
+			}
+		}
+		if t.mult != 0 {
+			m["multipleOf"] = t.mult
+		}
 	case "str":
 		m = map[string]any{"type": "string"}
+		if t.lmin != 0 {
+			m["minLength"] = t.lmin
+		}
+		if t.lmax != nil {
+			m["maxLength"] = *t.lmax
+		}
 	case "bool":
 		m = map[string]any{"type": "boolean"}
 	case "arr":
 		m = map[string]any{"type": "array", "items": t.item.schema(t.nul)}
+		if t.lmin != 0 {
+			m["minItems"] = t.lmin
+		}
+		if t.lmax != nil {
+			m["maxItems"] = *t.lmax
+		}
 	default:
 		props := map[string]any{}
 		var req []string
@@ -102,15 +179,32 @@ func (t *cTy) schema(nullable bool) map[string]any {
 
 // tokens of the type for the model's line protocol
 func (t *cTy) toks(sb *strings.Builder) {
+	optI := func(p *int64) string {
+		if p == nil {
+			return "-"
+		}
+		return fmt.Sprint(*p)
+	}
+	lenK := func() string {
+		mx := "-"
+		if t.lmax != nil {
+			mx = fmt.Sprint(*t.lmax)
+		}
+		return fmt.Sprintf(":%d:%s", t.lmin, mx)
+	}
 	switch t.kind {
 	case "int":
-		sb.WriteString("I ")
+		mu := "-"
+		if t.mult != 0 {
+			mu = fmt.Sprint(t.mult)
+		}
+		fmt.Fprintf(sb, "I:%s:%s:%d:%d:%s ", optI(t.imin), optI(t.imax), b2i(t.exMin), b2i(t.exMax), mu)
 	case "str":
-		sb.WriteString("S ")
+		sb.WriteString("S" + lenK() + " ")
 	case "bool":
 		sb.WriteString("B ")
 	case "arr":
-		fmt.Fprintf(sb, "A%d ", b2i(t.nul))
+		fmt.Fprintf(sb, "A%d%s ", b2i(t.nul), lenK())
 		t.item.toks(sb)
 	default:
 		fmt.Fprintf(sb, "O%d ", len(t.fields))
@@ -127,14 +221,44 @@ var cInts = []string{"0", "1", "-1", "7", "42", "-100", "9007199254740993", "-90
 func (t *cTy) instance(rng *lp.Rand) *J {
 	switch t.kind {
 	case "int":
+		if t.imin != nil || t.imax != nil || t.mult != 0 {
+			// around the bounds and the multiples
+			c := []int64{0, 1, -1, 2, 3, 4, 6, 12}
+			if t.imin != nil {
+				c = append(c, *t.imin-1, *t.imin, *t.imin+1)
+			}
+			if t.imax != nil {
+				c = append(c, *t.imax-1, *t.imax, *t.imax+1)
+			}
+			return &J{kind: "num", raw: fmt.Sprint(lp.Pick(rng, c))}
+		}
 		return &J{kind: "num", raw: lp.Pick(rng, cInts)}
 	case "str":
+		if t.lmin != 0 || t.lmax != nil {
+			// lengths around the bounds, in code points of one to four bytes
+			n := t.lmin + rng.Intn(3) - 1
+			if t.lmax != nil && rng.Bool() {
+				n = *t.lmax + rng.Intn(3) - 1
+			}
+			var sb strings.Builder
+			for i := 0; i < n; i++ {
+				sb.WriteString(lp.Pick(rng, []string{"a", "é", "日", "😀", " ", "\"", "0"}))
+			}
+			return &J{kind: "str", s: sb.String()}
+		}
 		return &J{kind: "str", s: lp.Pick(rng, jStrs)}
 	case "bool":
 		return &J{kind: "bool", b: rng.Bool()}
 	case "arr":
 		j := &J{kind: "arr"}
-		for i := rng.Intn(4); i > 0; i-- {
+		cnt := rng.Intn(4)
+		if t.lmin != 0 || t.lmax != nil {
+			cnt = t.lmin + rng.Intn(3) - 1
+			if t.lmax != nil && rng.Bool() {
+				cnt = *t.lmax + rng.Intn(3) - 1
+			}
+		}
+		for i := cnt; i > 0; i-- {
 			if t.nul && rng.Chance(30) {
 				j.arr = append(j.arr, &J{kind: "null"})
 			} else {
@@ -287,6 +411,53 @@ func (t *cTy) valid(j *J) bool {
 		default:
 			if !f.ty.valid(v) {
 				return false
+			}
+		}
+	}
+	return true
+}
+
+// reference: the keywords (on a document that has the right shape)
+func (t *cTy) keywordsOK(j *J) bool {
+	lenOK := func(n int) bool { return n >= t.lmin && (t.lmax == nil || n <= *t.lmax) }
+	switch {
+	case j.kind == "null":
+		return true
+	case t.kind == "int" && j.kind == "num":
+		n, ok := new(big.Int).SetString(j.raw, 10)
+		if !ok {
+			return false
+		}
+		if t.imin != nil {
+			if c := n.Cmp(big.NewInt(*t.imin)); c < 0 || (c == 0 && t.exMin) {
+				return false
+			}
+		}
+		if t.imax != nil {
+			if c := n.Cmp(big.NewInt(*t.imax)); c > 0 || (c == 0 && t.exMax) {
+				return false
+			}
+		}
+		if t.mult != 0 && new(big.Int).Mod(n, big.NewInt(t.mult)).Sign() != 0 {
+			return false
+		}
+	case t.kind == "str" && j.kind == "str":
+		return lenOK(utf8.RuneCountInString(j.s))
+	case t.kind == "arr" && j.kind == "arr":
+		if !lenOK(len(j.arr)) {
+			return false
+		}
+		for _, e := range j.arr {
+			if !t.item.keywordsOK(e) {
+				return false
+			}
+		}
+	case t.kind == "obj" && j.kind == "obj":
+		for _, f := range t.fields {
+			for i, k := range j.keys {
+				if k == f.name && !f.ty.keywordsOK(j.vals[i]) {
+					return false
+				}
 			}
 		}
 	}
@@ -470,6 +641,90 @@ func c04Codec(r *lp.Run, rng *lp.Rand, drv *gc.Driver, pkgs []*codecPkg) {
 					if w := strings.TrimSpace(want.String()); w != got {
 						r.Fail(lp.PropFail{Property: "C04", What: "decoding and re-encoding a valid document changes it (beyond dropping undeclared members and ordering by declaration)", Input: in, Observed: got, Expected: w})
 					}
+				}
+			}
+		}
+	}
+}
+
+// C03 on the same fragment with validation keywords: the regenerated *server's* verdict on a body (handler reached
+// or 400) against the Lean model's `accept` (decode, then Validate) and the reference (shape and keywords)
+func c03CodecAdd(r *lp.Run, rng *lp.Rand, mod *gc.Module) []*codecPkg {
+	var out []*codecPkg
+	for p := 0; p < r.N(4, 30); p++ {
+		cp := &codecPkg{}
+		comps := map[string]any{}
+		paths := map[string]any{}
+		for i := 0; i < 6; i++ {
+			t := genCTyK(rng, 3, true)
+			cp.types = append(cp.types, t)
+			name := fmt.Sprintf("T%d", i)
+			comps[name] = t.schema(false)
+			paths["/"+name] = map[string]any{"post": map[string]any{"operationId": "op" + name,
+				"requestBody": map[string]any{"required": true, "content": map[string]any{"application/json": map[string]any{"schema": map[string]any{"$ref": "#/components/schemas/" + name}}}},
+				"responses":   map[string]any{"200": map[string]any{"description": "ok"}}}}
+		}
+		doc, _ := json.Marshal(map[string]any{"openapi": "3.0.3", "info": map[string]any{"title": "t", "version": "1"}, "paths": paths, "components": map[string]any{"schemas": comps}})
+		cp.doc = string(doc)
+		pkg, err := mod.Add(fmt.Sprintf("ck%d", p), doc, gen.Options{})
+		if err != nil {
+			r.Fail(lp.PropFail{Property: "C03", What: "the generator refuses a document of the codec fragment with validation keywords", Input: json.RawMessage(doc), Observed: err.Error(), Expected: "generated package"})
+			continue
+		}
+		cp.pkg = pkg
+		out = append(out, cp)
+	}
+	return out
+}
+
+func c03Codec(r *lp.Run, rng *lp.Rand, drv *gc.Driver, pkgs []*codecPkg) {
+	for _, cp := range pkgs {
+		for ti, t := range cp.types {
+			name := fmt.Sprintf("T%d", ti)
+			var docs []*J
+			var items [][3]string
+			for i := 0; i < r.N(60, 400); i++ {
+				j := t.instance(rng)
+				if rng.Chance(30) {
+					j = cMutate(rng, j)
+				}
+				var sb strings.Builder
+				(&jgen{r: rng}).text(j, &sb)
+				docs = append(docs, j)
+				items = append(items, [3]string{"POST", "/" + name, sb.String()})
+			}
+			ans, _ := drv.Do(map[string]any{"pkg": cp.pkg.Name, "cmd": "postbatch", "items": items})
+			res, ok := ans["results"].([]any)
+			if !ok || len(res) != len(docs) {
+				r.Fail(lp.PropFail{Property: "C03", What: "driver failure", Input: map[string]any{"type": name, "document": json.RawMessage(cp.doc)}, Observed: fmt.Sprint(ans), Expected: "results"})
+				continue
+			}
+			var tt strings.Builder
+			t.toks(&tt)
+			for i, x := range res {
+				out := fmt.Sprint(x)
+				in := map[string]any{"type": name, "schema": t.schema(false), "instance": items[i][2]}
+				accepted := strings.HasPrefix(out, "501 h1") || strings.HasPrefix(out, "200 h1")
+				refused := strings.HasPrefix(out, "400 h0")
+				var dt strings.Builder
+				jtoks(docs[i], &dt)
+				shape := t.valid(docs[i])
+				want := shape && t.keywordsOK(docs[i])
+				got := "refuse"
+				if accepted {
+					got = "accept"
+				}
+				r.PropCheck()
+				if strings.Contains(out, "panic=") || (!accepted && !refused) {
+					r.Fail(lp.PropFail{Property: "C03", What: "the server answers a body with something other than the handler or 400", Input: in, Observed: out, Expected: "handler or 400"})
+					continue
+				}
+				r.Case("jaccept", tt.String()+strings.TrimSpace(dt.String()), got, fmt.Sprintf("accept:shape=%v,valid=%v", shape, want), shape)
+				switch {
+				case want && !accepted:
+					r.Fail(lp.PropFail{Property: "C03", What: "a body that is valid against the schema is refused", Input: in, Observed: out, Expected: "handler invoked"})
+				case !want && accepted:
+					r.Fail(lp.PropFail{Property: "C03", What: "a body that violates the schema (shape or keyword) reaches the handler", Input: in, Observed: out, Expected: "400, handler not invoked"})
 				}
 			}
 		}
